@@ -200,7 +200,10 @@ def part_eviction(ctx, n):
 DOCS = ['<root><a/>tail</root>',
         '<r>a<x>p<i/>q</x>b<!--c-->d<y><z/>t</y>e</r>',
         '<r><a>one<b>two</b>three</a><c/>four<d>five<e/>six</d></r>',
-        '<root><a>sch\u00f6n<b/><c/></a><d/>t</root>']
+        '<root><a>sch\u00f6n<b/><c/></a><d/>t</root>',
+        '<root><a/><b/><c/></root>',
+        '<root><first xml:space="bogus"/><wrap><c/></wrap><last/></root>']
+WARNING_DOC = 5       # its serialization emits a UserWarning (invalid xml:space): a hook the program may hang a callback on
 PRETTY = impl.FormatOptions(align_attributes=False, indentation="  ", width=0)
 WRAPPED = impl.FormatOptions(align_attributes=False, indentation=" ", width=20)
 BLANK_TAILS = []      # the chain members behind a blanked text node that programs of the current run created
@@ -214,11 +217,27 @@ def gen_program(rng, n_ops):
     pat = rng.random()
     if pat < 0.2:
         prog["hold_doc"], prog["hold_root"] = False, False           # e.g. a text node without its owning element
+    if 0.2 <= pat < 0.35:
+        # a document the program references once, twice or three times while it does not hold the root node
+        prog["hold_doc"], prog["hold_root"] = True, False
+    prog["doc_aliases"] = rng.randrange(3)
+    prog["n_filter"] = rng.choice([1, 2, 3, 5, 8])      # the collecting filter callback fires on every n-th invocation
+    if rng.random() < 0.2:
+        prog["doc"] = WARNING_DOC
     prog["initial_p"] = rng.choice([0.15, 0.3, 0.6])
     prog["seed"] = rng.randrange(1 << 30)
     for _ in range(n_ops):
         prog["ops"].append({"op": rng.choice(OPS), "h": rng.randrange(64), "keep": rng.random() < 0.5,
                             "k": rng.randrange(4), "txt": rng.choice(["X", "Y", " z ", "foo "])})
+    if rng.random() < (0.8 if prog["doc"] == WARNING_DOC else 0.3):
+        # an unreferenced run of text nodes behind an unheld element, then a call on the parent that counts and
+        # addresses children (append) or serializes them
+        hh = rng.randrange(64)
+        prog["ops"][:0] = [{"op": "texts_behind_sibling", "h": hh, "keep": False, "k": 0, "txt": "X"},
+                           {"op": "texts_into_leaf", "h": hh, "keep": False, "k": rng.randrange(4), "txt": "X"},
+                           {"op": "append_to_parent", "h": hh, "keep": False, "k": 0, "txt": "X"}]
+        if prog["doc"] not in (WARNING_DOC,):
+            prog["doc"] = rng.choice([4, 4, prog["doc"]])
     if rng.random() < 0.06:
         prog["ops"].insert(rng.randrange(len(prog["ops"]) + 1), {"op": "set_content", "h": rng.randrange(64), "keep": False,
                                                                  "k": 0, "txt": ""})
@@ -226,6 +245,7 @@ def gen_program(rng, n_ops):
 
 
 OPS = ["add_following_text", "add_following_text", "add_following_texts", "add_preceding_tag", "append_children",
+       "texts_behind_sibling", "texts_into_leaf", "append_to_parent", "append_to_parent",
        "blank_chain", "refill_previous", "refill_previous", "save_ascii", "prepend_texts",
        "set_content", "nav_parent", "nav_tag_child", "nav_following_tag", "detach", "replace_with", "drop", "drop",
        "insert_child", "serialize"]
@@ -305,10 +325,39 @@ def unheld_tail_text(root_el, handles):
     return False
 
 
+BASELINE_OF = {"every-call": "none", "threshold-1": "none", "other-thread": "none", "in-filter": "filter-none"}
+
+
 def run_program(prog, mode):
-    """mode: 'none' | 'every-call' | 'threshold-1'.  Returns the list of observations (plain data)."""
+    """mode: 'none' | 'every-call' | 'threshold-1' | 'other-thread' (a second thread collects from inside a
+    warnings.showwarning hook fired during serialization) | 'filter-none' / 'in-filter' (every call runs under an
+    always-true ambient filter; in 'in-filter' the filter runs gc.collect() on every n-th invocation, i.e. inside
+    library calls).  Returns the list of observations (plain data)."""
     import random
+    import threading
+    import warnings
     rng = random.Random(prog["seed"])
+    calls = [0]
+
+    def collecting_filter(node):
+        calls[0] += 1
+        if mode == "in-filter" and calls[0] % prog.get("n_filter", 3) == 0:
+            gc.collect()
+        return True
+
+    def showwarning(message, category, filename, lineno, file=None, line=None):
+        if mode == "other-thread" and "xml:space" in str(message):      # emitted by the serializers, inside the lock
+            t = threading.Thread(target=gc.collect)
+            t.start()
+            t.join()
+    baseline = mode in ("none", "filter-none")
+    with warnings.catch_warnings():
+        warnings.simplefilter("always")
+        warnings.showwarning = showwarning
+        return _run_program(prog, mode, rng, baseline, collecting_filter if mode in ("filter-none", "in-filter") else None)
+
+
+def _run_program(prog, mode, rng, baseline, ambient_filter):
     obs = []
     del BLANK_TAILS[:]
     gc.collect()
@@ -333,24 +382,29 @@ def run_program(prog, mode):
                 del n
             if not prog["hold_doc"]:
                 doc = None
+            aliases = [doc] * prog.get("doc_aliases", 0)       # further references to the document
             guard_broken = False
             lib_guard_broken = False
             for step, o in enumerate(prog["ops"]):
                 res = None
-                if mode == "none" and not lib_guard_broken and unheld_tail_text(root_el, handles):
+                if baseline and not lib_guard_broken and unheld_tail_text(root_el, handles):
                     lib_guard_broken = True
-                if mode == "none" and not guard_broken and not guard_ok(handles, doc):
+                if baseline and not guard_broken and not guard_ok(handles, doc):
                     guard_broken = True          # the state the call starts from counts (collections fire inside it)
                 if handles:
                     h = handles[o["h"] % len(handles)]
                     try:
-                        res = apply_op(o, h, handles, doc)
+                        if ambient_filter is not None:
+                            with altered_default_filters(ambient_filter):
+                                res = apply_op(o, h, handles, doc)
+                        else:
+                            res = apply_op(o, h, handles, doc)
                     except Exception as e:  # noqa: BLE001
                         res = "raised " + type(e).__name__
                     del h
                 if mode == "every-call":
                     gc.collect()
-                if mode == "none" and not guard_broken and not guard_ok(handles, doc):
+                if baseline and not guard_broken and not guard_ok(handles, doc):
                     guard_broken = True
                 # what the program observes at this point
                 snap = {"res": res, "texts": [text_of(h) for h in handles],
@@ -371,12 +425,28 @@ def run_program(prog, mode):
                     snap["tree"] = "raised " + type(e).__name__
                 snap.setdefault("pretty", None)
                 top = None
+                # the document's own root is the root every held node reaches, and their document is the held one
+                snap["docroot"] = None
+                if doc is not None:
+                    dr = []
+                    for h in handles:
+                        try:
+                            with altered_default_filters():
+                                t = h
+                                while t.parent is not None:
+                                    t = t.parent
+                            dr.append([t is doc.root, h.document is doc])
+                        except Exception as e:  # noqa: BLE001
+                            dr.append("raised " + type(e).__name__)
+                        t = None
+                    h = None
+                    snap["docroot"] = dr
                 obs.append(snap)
                 if mode == "every-call":
                     gc.collect()
             # release
             del BLANK_TAILS[:]
-            del handles, doc
+            del handles, doc, aliases
         finally:
             gc.disable()
         gc.collect()
@@ -404,6 +474,43 @@ def apply_op(o, h, handles, doc=None):
                 handles.pop(i)
                 break
         return "ok"
+    if op == "texts_behind_sibling":
+        # an unreferenced run of adjacent text nodes behind an element whose wrapper nobody keeps
+        sib = h.fetch_following_sibling(is_tag_node)
+        if sib is None:
+            # otherwise behind the second element child of the root of h's tree
+            top = h
+            while top.parent is not None:
+                top = top.parent
+            first = top.first_child if isinstance(top, TagNode) else None
+            with altered_default_filters(is_tag_node):
+                first = top.first_child if isinstance(top, TagNode) else None
+            sib = first.fetch_following_sibling(is_tag_node) if first is not None else None
+            del top, first
+        if sib is None:
+            return "n/a"
+        sib.add_following_siblings("x ", " y", "z ")
+        return "ok"
+    if op == "texts_into_leaf":
+        # two adjacent unreferenced text nodes as the only content of an element nobody holds
+        top = h
+        while top.parent is not None:
+            top = top.parent
+        if not isinstance(top, TagNode):
+            return "n/a"
+        with altered_default_filters():
+            leaves = [n for n in top.iterate_descendants(is_tag_node) if len(n) == 0]
+            if not leaves:
+                return "n/a"
+            leaves[o["k"] % len(leaves)].append_children("a ", " a")
+        del leaves, top
+        return "ok"
+    if op == "append_to_parent":
+        p = h.parent
+        if p is None:
+            return "n/a"
+        r = p.append_children("p", tag("q"), "r")
+        return [type(x).__name__ for x in r]
     if op == "refill_previous":
         if not is_text:
             return "n/a"
@@ -436,7 +543,7 @@ def apply_op(o, h, handles, doc=None):
             handles.extend(r)
         return "ok"
     if op == "add_following_texts":
-        r = h.add_following_siblings(o["txt"], "W")
+        r = h.add_following_siblings(o["txt"], "W" if o["k"] % 2 == 0 else " w")
         if o["keep"]:
             handles.append(r[-1])             # a chained text node without its predecessors
         return "ok"
@@ -538,7 +645,12 @@ def compare_runs(ctx, prog, confirm=True):
                                                                                           "mode": "none", "left": left0,
                                                                                           "emptied_head": emptied,
                                                                                           "unraisable": bool(unr0)}, classify)
-    for mode in ("every-call", "threshold-1"):
+    bases = {"none": base}
+    modes = ["every-call", "threshold-1", "in-filter"] + (["other-thread"] if prog["doc"] == WARNING_DOC else [])
+    for mode in modes:
+        if BASELINE_OF[mode] not in bases:
+            bases[BASELINE_OF[mode]], leftb, _ = run_program(prog, BASELINE_OF[mode])
+        base = bases[BASELINE_OF[mode]]
         obs, left, unr = run_program(prog, mode)
         ctx.count(1, "program run: %s, %s" % (mode, "head-text guard broken at some step" if (base and base[-1]["guard_broken"])
                                               else "head-text guard holds throughout"))
@@ -551,10 +663,11 @@ def compare_runs(ctx, prog, confirm=True):
                      {"kind": "release", "prog": prog, "mode": mode, "left": left, "emptied_head": emptied,
                       "unraisable": bool(unr)}, classify)
         for step, (a, b) in enumerate(zip(base, obs)):
-            diff = [k for k in ("res", "tree", "pretty", "texts", "wired") if a[k] != b[k]]
+            diff = [k for k in ("res", "tree", "pretty", "texts", "wired", "docroot") if a[k] != b[k]]
             if diff:
                 what = {"tree": "the content of the tree", "pretty": "the indented / wrapped serialization of the tree", "texts": "the content of a held text node",
                         "wired": "a held node is no longer the object navigation returns for its position",
+                        "docroot": "a held node no longer reaches document.root / its document",
                         "res": "the result of a call"}[diff[0]]
                 ctx.fail("collections changed what the program observes: " + what,
                          {"kind": "observation", "prog": prog, "mode": mode, "step": step, "differs": diff,
@@ -563,6 +676,7 @@ def compare_runs(ctx, prog, confirm=True):
                           "blanked": blanked, "blank_tail_held": a["blank_tail_held"],
                           "emptied_head": emptied, "unraisable": bool(unr)}, classify)
                 break
+    base = bases["none"]
     ctx.sample({"part": "program", "program": prog, "final_tree": base[-1]["tree"] if base else None}, limit=4)
 
 
@@ -601,7 +715,8 @@ def classify(finding, case):
                 and not case.get("blank_tail_held") and not case.get("unraisable"))
     if cls == "wrapped-serialization-of-uncoalesced-text":
         a, b = (case.get("without_gc") or {}).get("pretty"), (case.get("with_gc") or {}).get("pretty")
-        return (case.get("kind") == "observation" and case.get("differs") == ["pretty"]
+        # (not in the other-thread mode: there the only collections run inside `with _wrapper_cache:` regions)
+        return (case.get("kind") == "observation" and case.get("differs") == ["pretty"] and case.get("mode") != "other-thread"
                 and isinstance(a, list) and isinstance(b, list) and a[0] == b[0] and a[1] != b[1]
                 and "".join(a[1].split()) == "".join(b[1].split()))
     if cls == "empty-head-with-chain":
@@ -689,7 +804,7 @@ def run(ctx, args):
             return ctx.finish("replay of " + args.replay, level="proof", replay_open=replay_open)
         quick = ctx.tier == "quick"
         part_eviction(ctx, 60 if quick else 1500)
-        for i in range(100 if quick else 4000):
+        for i in range(100 if quick else 2200):
             compare_runs(ctx, gen_program(ctx.rng, ctx.rng.choice([3, 6, 10])))
     finally:
         gc.set_threshold(*state[1])
